@@ -41,6 +41,25 @@ def compile_once(parser, text):
     return out
 
 
+class JobAsCompiler:
+    """A ScriptJob used the way the front ends use it: load_string again and again on one object; what counts is the
+    program the job would run afterwards."""
+
+    def __init__(self):
+        from bardolph.controller.script_job import ScriptJob
+        self.job = ScriptJob()
+
+    def parse(self, text):
+        self.job.load_string(text)
+        return self.job.program is not None
+
+    def get_errors(self):
+        return self.job.compile_errors
+
+    def get_program(self):
+        return self.job.program
+
+
 def compile_histories(report, rng):
     from bardolph.parser.parse import Parser
     maxlen = 4 if report.tier == 'thorough' else 3
@@ -57,7 +76,7 @@ def compile_histories(report, rng):
     variants = 3 if report.tier == 'thorough' else 2
     for hist in histories:
         for variant in range(variants):
-            parser = Parser()
+            parser = Parser() if variant % 2 == 0 else JobAsCompiler()
             reqs, texts = [], []
             for cls in hist:
                 text = rng.choice(TEXTS[cls])
@@ -135,6 +154,42 @@ class StopAt:
             self.table.update(self.saved)
 
 
+def run_with_late_stop(world, job, rec, when):
+    """One run of `job` the way job control runs it (Agent._execute_and_call, synchronously), with a stop request for
+    that run arriving at the named moment of its completion."""
+    from bardolph.lib.job_control import Agent
+    box = {}
+
+    def callback(agent):
+        if when == 'callback':
+            agent.request_stop()
+    agent = Agent(job, callback)
+    box['agent'] = agent
+    original = getattr(job, 'run_finished', None)
+
+    def run_finished():
+        if when == 'before':
+            agent.request_stop()
+        if original is not None:
+            original()
+        if when == 'after':
+            agent.request_stop()
+    job.run_finished = run_finished
+
+    class ViaAgent:
+        program = job.program
+
+        def execute(self):
+            agent._execute_and_call()
+
+        def request_stop(self):
+            job.request_stop()
+    try:
+        runner.run_script(world, rec['text'], job=ViaAgent())
+    finally:
+        del job.run_finished
+
+
 def snapshot_pop(world, pop):
     out = []
     for spec in pop:
@@ -185,6 +240,11 @@ def run_histories(report, rng):
         for k in rng.sample(range(1, 60), 3 if report.tier != 'thorough' else 8):
             execute(world, job, rec, 'stopped', stop_at=k)
             execute(world, job, rec, 'run after a stop at instruction %d' % k)
+        # a stop request that arrives just as a run finishes (before / after the job is told so / in the controller's
+        # callback) was aimed at that run: the next run of the same job is a full run
+        for when in ('before', 'after', 'callback'):
+            run_with_late_stop(world, job, rec, when)
+            execute(world, job, rec, 'run after a stop request that arrived as the previous run finished (%s)' % when)
         if Instruction.do_listing(job.program) != before:
             problems.append((rec, 'program-changed', 'executing the job changed its compiled program'))
         # another job in the same world afterwards
